@@ -118,6 +118,10 @@ PENDING = "check not built yet (framework under construction, see DESIGN.md §9)
 
 
 def main():
+    import sys
+    sys.path.insert(0, os.path.join(VERIF, "engine"))
+    import krun
+    kani_props = sorted({p for hf in krun.harness_files() for p in hf["props"] if p in CLAIMS})
     props = [json.loads(l) for l in open(os.path.join(VERIF, "properties.jsonl"))]
     checks = []
     na = []
@@ -145,7 +149,7 @@ def main():
         hooks=dict(guard="rxrust_verif", enable="RUSTFLAGS='--cfg rxrust_verif' (set by engine/krun.py for every Engine-K run; one named yield point in StatusFuture::poll; MutArc::verif_is_locked, a read-only lock observer used by the lock-scope harnesses)",
                    baseline_off_cmd="cd /repo && cargo test --workspace --no-fail-fast --offline",
                    source_commits=hooks_commits, add_only=True),
-        engines=[dict(name="kani-real-crate", path="engine/krun.py", serves_properties=["C03", "C05", "C08", "C13", "C14", "C16", "C18", "C19"],
+        engines=[dict(name="kani-real-crate", path="engine/krun.py", serves_properties=kani_props,
                       kind_free_text="scratch copy of /repo + harness modules of contracts/kani appended as #[cfg(kani)] child modules; cargo kani; counterexamples replayed natively"),
                  dict(name="verus-extract", path="engine/", serves_properties=sorted(CLAIMS),
                       kind_free_text="extract.py pulls the real function text out of /repo on every run, splices the contracts of "
@@ -155,6 +159,11 @@ def main():
         not_applicable=na,
     )
     json.dump(m, open(os.path.join(VERIF, "MANIFEST.json"), "w"), indent=1)
+    # the function inventory the "needs contract" rule compares against (engine/vrun.py)
+    if subprocess.run(["git", "-C", "/repo", "status", "--porcelain", "--", "src"], capture_output=True, text=True).stdout.strip() == "":
+        subprocess.run(["python3", os.path.join(VERIF, "engine", "vrun.py"), "--inventory"], check=False)
+    else:
+        print("WARNING: /repo/src has uncommitted changes: contracts/inventory.json NOT regenerated")
     print("claimed:", [c["property_id"] for c in checks])
     print("not claimed:", [n["property_id"] for n in na])
 
